@@ -521,6 +521,44 @@ def run(ctx):
                               'replay': rl.record('eigh', {'x': hl_full}, {'symmetry': sym})})
         except Exception:
             raised['eigh'] = raised.get('eigh', 0) + 1
+    # solve with pending signs on the matrix and / or the right-hand side; the matrix has an EVEN total charge, zero or not,
+    # and any directions (odd matrices are the pinned finding F16 of C11), so that row and column charges of a block differ
+    for k in range(n_cases // 3):
+        sym = SYMS[k % len(SYMS)]
+        try:
+            d = rng.randint(1, 2)
+            cms = [{c: d for c in gen.rand_chargemap(rng, sym, maxcharges=3, maxsize=1)} for _ in range(2)]
+            dus = [rng.random() < 0.5, rng.random() < 0.5]
+            A0 = None
+            for _ in range(8):
+                cand = gen.rand_array(rng, sr, sym, chargemaps=cms, duals=dus, fermionic=True, keep=1.0, static=False, oddpos=rng.randint(1, 9))
+                if cand.blocks and refsym.par(sym, cand.charge) == 0:
+                    A0 = cand
+                    break
+            if A0 is None:
+                continue
+            for sct in list(A0.blocks):
+                A0.blocks[sct] = np.asarray(A0.blocks[sct], dtype='float64') + 3.0 * np.eye(d)
+            c0 = rng.choice(list(A0.blocks))[0]
+            b0 = gen.rand_array(rng, sr, sym, chargemaps=[dict(cms[0])], duals=[dus[0]], charge=refsym.signed(sym, c0, dus[0]), fermionic=True,
+                                keep=1.0, static=False, oddpos=rng.randint(11, 19))
+            for sct in list(b0.blocks):
+                b0.blocks[sct] = np.asarray(b0.blocks[sct], dtype='float64')
+            Al, bl = gen.rand_lazy(rng, sr, A0, steps=rng.randint(0, 2)), gen.rand_lazy(rng, sr, b0, steps=rng.randint(1, 3))
+            ctx.count()
+            opstat['solve'] = opstat.get('solve', 0) + 1
+            x1 = la.solve(Al, bl)
+            x2 = la.solve(Al.phase_sync(), bl.phase_sync())
+            if not value_eq(x1, x2, tol=1e-9):
+                found.append({'op': 'solve', 'symmetry': sym, 'x': describe(bl), 'other': describe(Al),
+                              'error': 'solve(A, b) with pending signs differs from solve on the synchronised copies',
+                              'lazy': describe(x1), 'synced': describe(x2)})
+            if (Al.phases or bl.phases) and A0.charge != refsym.zero(sym):
+                ctx.nontrivial(('solve-lazy-charged', sym, str(A0.charge), str(dus), str(sorted(bl.phases))))
+        except np.linalg.LinAlgError:
+            raised['solve_singular'] = raised.get('solve_singular', 0) + 1
+        except (ValueError, KeyError, IndexError) as e:
+            raised['solve:' + type(e).__name__] = raised.get('solve:' + type(e).__name__, 0) + 1
     found += found_values
     bad_idx = common.run_cases(ctx, 'lazy', IMPORTS, '', exprs, shard=60)
     tie_broken = []
